@@ -280,3 +280,5 @@ func c16WorkerMain() {
 	}
 	fmt.Printf("RESULT stored=%d\n", v)
 }
+
+func init() { registerWorker("c16worker", c16WorkerMain) }
